@@ -43,6 +43,9 @@ def run(rep, tier, seed, summary):
     rep.suite("canonical responses of 15 structures + all TransportID and designator kinds: bytes->dict->bytes, dict->bytes->dict, "
               "one-field read-modify-write through the real parser/builder pairs", len(res), 0,
               samples=[dict(structure=res[0]["fmt"])], distribution=dict(per_structure=kinds, failing=nbad))
+    # the regenerated decoder / builder BODIES (Gen/PyFuncs.v under Model/Py.v) against the real functions
+    from corr import pyfuncs
+    pybad, _pc, _pr = pyfuncs.run(rep, tier, seed, summary)
     new = [h for h in hits if h["id"] not in known]
     for h in hits:
         if h["id"] in known:
@@ -52,4 +55,4 @@ def run(rep, tier, seed, summary):
     all_ok = ok and all(o[1] for o in rep.obligations)
     if not new and not all_ok:
         rep.violation("no longer shown to hold: " + "; ".join(n for n, okk, _ in rep.obligations if not okk),
-                      dict(kind="broken-obligation", obligations=[o for o in rep.obligations if not o[1]]), False)
+                      dict(kind="broken-obligation", obligations=[o for o in rep.obligations if not o[1]], mismatching_cases=pybad[:3]), False)
